@@ -34,6 +34,13 @@ def run(tier, replay=None):
     if replay:
         case = json.load(open(replay))["case"]
         res = frontlib.run_front([case])
+        if case.get("sequence"):
+            f0 = frontlib.run_front([{"id": 1, "src": case["src"]}])[1]
+            rp, fp = res[case["id"]]["parse"], f0["parse"]
+            if rp.get("outcome") != "ok" or ("err" in rp) != ("err" in fp):
+                ck.violation("replay: the text %r after %r parses as %s" % (case["src"], case["pre"], json.dumps(rp)[:300]), case)
+            ck.cov["evaluations"] = 1
+            return ck.finish()
         d = compare_accepted(case, res[case["id"]])
         if d:
             ck.violation(d, case)
@@ -135,6 +142,28 @@ def run(tier, replay=None):
         if d:
             ck.violation("a text of %d bytes composed of specified pieces: %s" % (len(c["src"].encode("utf-8")), d[:400]), c)
     ck.part("texts composed of specified pieces, lexed in one go", texts=len(longs), longest_bytes=max(len(c["src"].encode("utf-8")) for c in longs))
+    # ---- a text with no tokens (empty, blanks, a comment) is the empty program whatever was read before it in the same session: inputs rejected
+    # at the end of a line, in the middle of a line, inside an open bracket, accepted inputs, several of them
+    befores = [["a = 1 +"], ["f("], ["[1,"], ["x = ("], ["1 +\n"], ["a = 1 $"], ["1 2 )"], ["a = 1"], ["{\n1\n"], ["a = 1 +", "b = 2 *"], ["if true {"], ['"abc'], ["a = [1, 2 $"], ["1\n"], ["; c\n"]]
+    empties = ["", " ", "; only a comment", "  ; c", "\n", "\t", "; c\n", "\n\n"]
+    seqs = []
+    for pre in befores:
+        for e in empties:
+            seqs.append({"id": 9500000 + len(seqs), "src": e, "pre": pre, "nolex": False})
+    sres = frontlib.run_front(seqs)
+    fresh = {e: frontlib.run_front([{"id": 1, "src": e}])[1] for e in empties}
+    for c in seqs:
+        r, f0 = sres[c["id"]], fresh[c["src"]]
+        ck.cov["evaluations"] += 1
+        ck.cov["traces_validated_against_impl"] += 1
+        nontriv += 1
+        rp, fp = r["parse"], f0["parse"]
+        if rp.get("outcome") != "ok" or ("err" in rp) != ("err" in fp) or rp.get("err") != fp.get("err") or [t[:3] for t in r["lex"]["toks"]] != [t[:3] for t in f0["lex"]["toks"]]:
+            ck.violation("the text %r after the inputs %r in the same session: parsed as %s, on its own as %s" % (c["src"], c["pre"], json.dumps({k: rp.get(k) for k in ("outcome", "err", "msg")}), json.dumps({k: fp.get(k) for k in ("outcome", "err")})),
+                         {"id": c["id"], "src": c["src"], "pre": c["pre"], "sequence": True, "toks": [], "classes": "sequence"})
+        if "err" in fp:
+            raise vlib.Infra("a text without tokens is rejected on its own: %r" % c["src"])
+    ck.part("texts without tokens after other inputs of the same session", sequences=len(seqs))
     ck.cov["distinct_nontrivial"] = nontriv
     # binding self-test: shifting one specified span by one must be noticed
     st = 0
